@@ -263,6 +263,18 @@ def conversion_ranges(prog, chk, rid):
                 while f.nodes[x]["k"] in ("CStyleCastExpr", "CXXStaticCastExpr", "CXXFunctionalCastExpr", "ParenExpr", "ImplicitCastExpr") and f.nodes[x]["c"]:
                     x = f.strip(f.nodes[x]["c"][0])
                 n = f.nodes[x]
+                # an overload may delegate to its sibling of the same name: the sibling's parser then is this overload's parser
+                hops = 0
+                while n["k"] == "CallExpr" and n.get("callee") == f.name and hops < 2:
+                    g = prog.functions.get(n.get("csig"))
+                    gr = [i_ for i_, m_ in enumerate(g.nodes) if m_["k"] == "ReturnStmt" and m_["c"]] if g is not None and g is not f else []
+                    if len(gr) != 1:
+                        break
+                    y = g.strip(g.nodes[gr[0]]["c"][0])
+                    while g.nodes[y]["k"] in ("CStyleCastExpr", "CXXStaticCastExpr", "CXXFunctionalCastExpr", "ParenExpr", "ImplicitCastExpr") and g.nodes[y]["c"]:
+                        y = g.strip(g.nodes[y]["c"][0])
+                    n = g.nodes[y]
+                    hops += 1
                 if n["k"] != "CallExpr" or not n.get("callee"):
                     chk.bad(rid, f, "conversion-not-a-parser-call", f.where(r), "`%s` is not the plain result of a C library parser" % f.r(r)[:60])
                     continue
